@@ -26,7 +26,7 @@ ASSUMPTIONS = ["the expansion is the one shown on website/docs/task-types/run-ex
                "ill-typed chain_experiments is not generated (documented Boolean, implemented by truthiness)"]
 ESSENTIAL = ["chained>=3", "shared_deps", "dup_instance_names", "instance_equals_group_name", "experiments_absent",
              "generator_experiments", "ill_typed_field", "both_accepted", "both_rejected", "instance_clashes_other_task",
-             "failure_in_chain", "non_instance_element", "same_group_in_two_packages", "instance_defaults_filled_in_afterwards"]
+             "failure_in_chain", "non_instance_element", "same_group_in_two_packages", "instance_defaults_filled_in_afterwards", "deps_list_shared_with_a_later_task"]
 TECHNIQUE = "differential / translation validation: sugar vs. documented expansion, Hypothesis-generated definitions, identical virtual-kernel schedules"
 LEVEL_TEXT = ("Each generated group definition is a 'program'; its documented expansion is the reference translation. Loaded graphs and "
               "complete execution traces of both are compared. Random search over definitions, not exhaustive.")
@@ -73,6 +73,9 @@ def _case(draw, tier):
     if len(insts) >= 2 and cands and exp_form in ("list", "tuple", "gen") and draw(st.sampled_from([False, False, False, True])):
         j = draw(st.sampled_from(cands))
         mutate = {"j": j, "args": insts[j]["args"] is None, "options": insts[j]["options"] is None}
+    # `deps` handed over in a variable that a later task of the same file uses as well (COMMON_DEPS = [...]): neither
+    # the group nor its expansion may change what the later task depends on
+    shared_var = deps is not None and deps.startswith("[':base'") and "':base', ':base'" not in deps and draw(st.sampled_from([False, False, True]))
     consumer = draw(st.sampled_from(["none", "group", "instance", "both"]))
     target = draw(st.sampled_from(["group", "group", "consumer" if consumer != "none" else "group", "instance" if insts else "group"]))
     pkg = draw(st.sampled_from(["", "p"]))
@@ -87,7 +90,7 @@ def _case(draw, tier):
             "outcomes": outcomes, "tape": tape, "again": draw(st.sampled_from([False, False, True])),
             "second_run": draw(st.sampled_from([False, False, True])),
             # the same group (same instance names) defined once more in a sibling package, both loaded by one invocation
-            "twin": draw(st.sampled_from([False, False, False, True])), "mutate": mutate}
+            "twin": draw(st.sampled_from([False, False, False, True])), "mutate": mutate, "shared_var": shared_var}
 
 
 def strategy(tier):
@@ -140,8 +143,17 @@ def sugar_src(case):
     if case["chain"] is not None:
         parts.append("chain_experiments=%s" % case["chain"])
     if case["deps"] is not None:
-        parts.append("deps=%s" % case["deps"])
-    return pre + "run_experiment_group(%s)\n" % ", ".join(parts)
+        parts.append("deps=%s" % ("COMMON_DEPS" if case.get("shared_var") else case["deps"]))
+    if case.get("shared_var"):
+        pre = "COMMON_DEPS = %s\n" % case["deps"] + pre
+    return pre + "run_experiment_group(%s)\n" % ", ".join(parts) + _after(case)
+
+
+def _after(case):
+    if not case.get("shared_var"):
+        return ""
+    return ("run_command(name='after', run='./u.sh', deps=COMMON_DEPS)\n"
+            "run_command(name='both2', run='./u.sh', deps=[':%s', ':after'])\n" % case["gname"])
 
 
 def expansion_src(case):
@@ -149,6 +161,9 @@ def expansion_src(case):
     out = []
     prev = None
     deps_src = case["deps"] if case["deps"] is not None else "[]"
+    if case.get("shared_var"):
+        out.append("COMMON_DEPS = %s\n" % case["deps"])
+        deps_src = "COMMON_DEPS"
     m = case.get("mutate")
     for k, inst in enumerate(case["insts"]):
         if m and k == m["j"]:
@@ -173,7 +188,7 @@ def expansion_src(case):
         out.append("run_experiment(%s)\n" % ", ".join(parts))
         prev = inst["name"]
     out.append("combine(name=%r, deps=[%s])\n" % (case["gname"], ", ".join(repr(":" + i["name"]) for i in case["insts"])))
-    return "".join(out)
+    return "".join(out) + _after(case)
 
 
 def other_src(case):
@@ -192,6 +207,8 @@ def target_id(case):
     t = case["target"]
     if case.get("twin"):
         return "//q:both"
+    if case.get("shared_var"):
+        return "//%s:both2" % pkg
     if t == "consumer":
         name = "use_group" if case["consumer"] in ("group", "both") else "use_inst" if case["insts"] else case["gname"]
     elif t == "instance" and case["insts"]:
@@ -279,6 +296,8 @@ def run_case(case):
             labels.add("same_group_in_two_packages")
         if case.get("mutate"):
             labels.add("instance_defaults_filled_in_afterwards")
+        if case.get("shared_var"):
+            labels.add("deps_list_shared_with_a_later_task")
         v = []
         n = len(case["insts"])
         names = [i["name"] for i in case["insts"]]
